@@ -156,6 +156,20 @@ def bridge_in_order(rects):
 OBJ_VARIANTS = ["constructed", "constructed", "copy", "deepcopy", "pickle"]
 
 
+BUILD_VARIANTS = OBJ_VARIANTS + ["foreign"]
+
+
+def build_obj(ctor, path, selector, *args, **kwargs):
+    """``ctor(*args, **kwargs)`` as constructed here, as an equal duplicate (copy / deepcopy / pickle round trip), or
+    built by the same call (``path``, e.g. "lentil.Pupil") in ANOTHER interpreter process and loaded here from its
+    pickle (vlib/foreign.py: a saved model, an object handed over by a multiprocessing worker).  Returns (obj, variant)."""
+    v = BUILD_VARIANTS[int(selector) % len(BUILD_VARIANTS)]
+    if v == "foreign":
+        from vlib import foreign
+        return foreign.call(path, *args, **kwargs), v
+    return derive_obj(ctor(*args, **kwargs), OBJ_VARIANTS.index(v))
+
+
 def derive_obj(obj, selector):
     """obj itself, obj.copy(), copy.deepcopy(obj) or a pickle round trip, chosen by an integer already in the case"""
     import copy
